@@ -355,6 +355,36 @@ def pair_arms(src, fname, what):
         if seen.count(v) != 1: fail(f"arms: {what}: {seen.count(v)} arms for ({v}, {v})")
     return rows
 
+def check_err_sites(src):
+    """type_check_rec: every `if !unify(&a, &b, ..) { errors.push(throw(.. X.source_range ..)) }` — which arm, the two
+    things unified (a trailing `_type` stripped: `x_type` is the inferred type of `x`), and whose range the error carries"""
+    body = fn_body(src, "type_check_rec")
+    blk = top_match(body, "type_check_rec")
+    rows = []
+    for pat, abody in split_arms(blk, "type_check_rec"):
+        name = parse_pattern(pat, "type_check_rec")[0][0]
+        alts = [n for n, _ in parse_pattern(pat, "type_check_rec")]
+        for m in re.finditer(r"\bunify\s*\(", abody):
+            pre = abody[max(0, m.start() - 12):m.start()]
+            depth, j = 0, m.end() - 1
+            start = j + 1
+            while True:
+                if abody[j] == "(": depth += 1
+                elif abody[j] == ")":
+                    depth -= 1
+                    if depth == 0: break
+                j += 1
+            args = [norm(a) for a in split_top(abody[start:j], ",") if a.strip()]
+            if not re.search(r"if\s*!\s*$", pre):
+                fail(f"arms: type_check_rec/{name}: a unify call that is not of the form `if !unify(..) {{ report }}`")
+            blk2, _ = match_block(abody, j)
+            owners = re.findall(r"\b(\w+)\s*\.\s*source_range", blk2)
+            if len(owners) != 1 or "errors.push" not in blk2:
+                fail(f"arms: type_check_rec/{name}: cannot read the range of the error after unify({args[0]}, {args[1]})")
+            for v in alts:
+                rows.append((v, [re.sub(r"_type$", "", a) for a in args[:2]], [a.endswith("_type") for a in args[:2]], owners[0]))
+    return rows
+
 def gen_arms():
     db = strip_hooks(strip_comments(strip_tests(read("src/de_bruijn.rs"))))
     tm = strip_hooks(strip_comments(strip_tests(read("src/term.rs"))))
@@ -414,6 +444,12 @@ def gen_arms():
         return f".uni {m.group(1)} .{m.group(2)} {m.group(3)}"
     out.append(",\n".join("  (.%s, [%s], .%s, %s, %s, .%s)" % (b, ", ".join(cev(e) for e in evs), v, o[0], o[1], ty)
                for b, evs, v, o, ty in checker_shape(tc)))
+    out += ["]", ""]
+    out += ["/-- `type_check_rec`: every reported unification — (arm, the two sides with a trailing `_type` stripped, which of them is",
+            "an inferred type `x_type`, the term whose source range the diagnostic carries) -/",
+            "def checkErrSites : List (V × List String × List Bool × String) := ["]
+    out.append(",\n".join('  (.%s, [%s], [%s], "%s")' % (v, ", ".join(f'"{a}"' for a in ab), ", ".join("true" if t else "false" for t in ts), o)
+               for v, ab, ts, o in check_err_sites(tc)))
     out += ["]", ""]
     un = strip_hooks(strip_comments(strip_tests(read("src/unifier.rs"))))
     eq = strip_hooks(strip_comments(strip_tests(read("src/equality.rs"))))
